@@ -1787,3 +1787,109 @@ pub fn c05_base256_raw_length_pairs() -> Phase {
         wall_cap_s: 0,
     }
 }
+
+/// Two fixed modules of one line flipped together, a machine-word distance apart (8, 16, 32, 64, 128 modules), for every
+/// fixed row and column of every size; and the two fixed modules at opposite ends of the same pixel row (left bar and
+/// right timing module) or the same pixel column (top clock and bottom bar module) of every region.
+pub fn c08_far_fixed_pairs(seed: u64) -> Phase {
+    let mut table: Vec<(usize, u32, u32)> = Vec::new();
+    for s in SIZES.iter() {
+        let tpl = crate::catalogue::fixed_template(s);
+        let (h, w) = (s.rows, s.cols);
+        let rh = h / s.reg_rows;
+        let rw = w / s.reg_cols;
+        for d in [8usize, 16, 32, 64, 128] {
+            for r in 0..h {
+                if r % rh != 0 && r % rh != rh - 1 {
+                    continue;
+                }
+                for c in 0..w.saturating_sub(d) {
+                    let (a, b) = (r * w + c, r * w + c + d);
+                    if tpl[a].is_some() && tpl[b].is_some() {
+                        table.push((s.idx, a as u32, b as u32));
+                    }
+                }
+            }
+            for c in 0..w {
+                if c % rw != 0 && c % rw != rw - 1 {
+                    continue;
+                }
+                for r in 0..h.saturating_sub(d) {
+                    let (a, b) = (r * w + c, (r + d) * w + c);
+                    if tpl[a].is_some() && tpl[b].is_some() {
+                        table.push((s.idx, a as u32, b as u32));
+                    }
+                }
+            }
+        }
+        for rr in 0..s.reg_rows {
+            for rc in 0..s.reg_cols {
+                let (r0, c0) = (rr * rh, rc * rw);
+                for r in 0..rh {
+                    table.push((s.idx, ((r0 + r) * w + c0) as u32, ((r0 + r) * w + c0 + rw - 1) as u32));
+                }
+                for c in 0..rw {
+                    table.push((s.idx, (r0 * w + c0 + c) as u32, ((r0 + rh - 1) * w + c0 + c) as u32));
+                }
+            }
+        }
+    }
+    let total = table.len() as u64;
+    let make = move |_ctx: &Ctx, i: u64| -> Trace {
+        let (si, a, b) = table[i as usize];
+        Trace {
+            prop: "C08".into(),
+            producer: Producer::Raw { size: si, data: seeded_data(seed, si, i % 3) },
+            faults: vec![Fault::new("fix_pair", Op::PxFlip { idx: a }), Fault::new("fix_pair", Op::PxFlip { idx: b })],
+        }
+    };
+    Phase {
+        source: Source::Sweep { name: "sweep_far_fixed_module_pairs".into(), prop: "C08".into(), make: Box::new(make) },
+        runs: total,
+        wall_cap_s: 0,
+    }
+}
+
+/// Long runs under a charset: k one-byte characters (k = 0..7) followed by 1500 / 3000 / 6000 high bytes of one value
+/// (and of two alternating values), under every charset the string path knows and two it does not. Block buffers
+/// and chunked conversions meet every residue of their boundary with characters of different encoded widths.
+pub fn c05_long_charset_runs() -> Phase {
+    const ECIS: [u8; 10] = [0, 4, 5, 8, 10, 12, 14, 16, 27, 28]; // none, then designator codewords (ECI + 1)
+    const BYTES: [u8; 5] = [0xA1, 0xE0, 0xFF, 0x80, 0xD0];
+    const LENS: [usize; 3] = [1500, 3000, 6000];
+    let total = (ECIS.len() * 8 * BYTES.len() * LENS.len() * 2) as u64;
+    let make = move |_ctx: &Ctx, i: u64| -> Trace {
+        let mut r = i as usize;
+        let alt = r % 2 == 1;
+        r /= 2;
+        let len = LENS[r % LENS.len()];
+        r /= LENS.len();
+        let b = BYTES[r % BYTES.len()];
+        r /= BYTES.len();
+        let k = r % 8;
+        r /= 8;
+        let eci = ECIS[r % ECIS.len()];
+        let mut data: Vec<u8> = Vec::new();
+        if eci != 0 {
+            data.extend_from_slice(&[241, eci]);
+        }
+        for j in 0..k {
+            data.push(b'a' + j as u8 + 1);
+        }
+        for j in 0..len {
+            let v = if alt && j % 2 == 1 { b ^ 0x1F } else { b };
+            if v < 128 {
+                data.push(v + 1);
+            } else {
+                data.push(235);
+                data.push(v - 127);
+            }
+        }
+        Trace { prop: "C05".into(), producer: Producer::Stream { data }, faults: vec![] }
+    };
+    Phase {
+        source: Source::Sweep { name: "sweep_long_runs_under_a_charset".into(), prop: "C05".into(), make: Box::new(make) },
+        runs: total,
+        wall_cap_s: 0,
+    }
+}
